@@ -5,10 +5,12 @@ import (
 	"encoding/hex"
 	"errors"
 	"fmt"
+	"hash/fnv"
 	"math"
 	"math/rand"
 	"os"
 	"path/filepath"
+	"sort"
 	"strconv"
 	"strings"
 	"sync"
@@ -1674,8 +1676,38 @@ func c15EndToEnd(c *Ctx, rt *core.Runtime, pr *c15Pair, n int) {
 	}
 	ps.Unlock() // first mrp exits
 	// re-attach with the edited sources
+	snapBefore := c15Snapshot(psdir)
 	p3, err := c15Attach(rt, psdir, pr.b, false)
 	accepted := err == nil
+	if !accepted {
+		// a refused attach changes nothing: the files of the pipestance are as before, the same
+		// attempt is refused again, and the original sources still attach
+		if d := c15SnapshotDiff(snapBefore, c15Snapshot(psdir)); d != "" {
+			r.violate(Violation{Kind: "property", Key: "C15:refused-attach-modified-pipestance",
+				What:  "a refused re-attach modified the pipestance directory: " + d + " (" + pr.desc + ")",
+				Input: input, Broken: "theorem Props.C15.lts_refused_attach_changes_nothing (files)"})
+		}
+		var ie0 *core.PipestanceInvocationError
+		if errors.As(err, &ie0) {
+			for attempt := 2; attempt <= 3; attempt++ {
+				if p4, err4 := c15Attach(rt, psdir, pr.b, false); err4 == nil {
+					r.violate(Violation{Kind: "property", Key: "C15:refused-attach-accepted-on-retry",
+						What:  fmt.Sprintf("the re-attach that was refused is ACCEPTED when the same command is run again (attempt %d): %s", attempt, pr.desc),
+						Input: input, Impl: "accepted", Expect: "refused"})
+					p4.Unlock()
+					break
+				}
+			}
+			if p5, err5 := c15Attach(rt, psdir, pr.a, false); err5 != nil {
+				r.violate(Violation{Kind: "property", Key: "C15:original-refused-after-refused-attach",
+					What:  "after a refused re-attach the ORIGINAL sources no longer attach: " + err5.Error(),
+					Input: input, Impl: "refused", Expect: "accepted"})
+			} else {
+				p5.Unlock()
+			}
+			r.hist("e2e-refused-attach-retried")
+		}
+	}
 	var ie *core.PipestanceInvocationError
 	if err != nil && !errors.As(err, &ie) {
 		r.hist("e2e-reattach-rejected-by-call-graph-builder")
@@ -1708,6 +1740,51 @@ func c15EndToEnd(c *Ctx, rt *core.Runtime, pr *c15Pair, n int) {
 			What: "a re-attach refused for a changed invocation leaves the pipestance locked", Input: input})
 		os.Remove(filepath.Join(psdir, "_lock"))
 	}
+}
+
+// c15Snapshot: name -> size:content-hash of the regular files directly in the pipestance directory
+// (the top-level metadata files), `_lock` excluded.
+func c15Snapshot(dir string) map[string]string {
+	out := map[string]string{}
+	ents, err := os.ReadDir(dir)
+	if err != nil {
+		return out
+	}
+	for _, e := range ents {
+		if e.IsDir() || e.Name() == "_lock" {
+			continue
+		}
+		if b, err := os.ReadFile(filepath.Join(dir, e.Name())); err == nil {
+			h := fnv.New64a()
+			h.Write(b)
+			out[e.Name()] = fmt.Sprintf("%d:%x", len(b), h.Sum64())
+		}
+	}
+	return out
+}
+
+func c15SnapshotDiff(a, b map[string]string) string {
+	var names []string
+	for k := range a {
+		names = append(names, k)
+	}
+	for k := range b {
+		if _, ok := a[k]; !ok {
+			names = append(names, k)
+		}
+	}
+	sort.Strings(names)
+	for _, k := range names {
+		switch {
+		case a[k] == "":
+			return "file " + k + " appeared"
+		case b[k] == "":
+			return "file " + k + " disappeared"
+		case a[k] != b[k]:
+			return "file " + k + " was rewritten"
+		}
+	}
+	return ""
 }
 
 func c15LockHistory(c *Ctx, rt *core.Runtime, pr *c15Pair, n int) {
